@@ -67,7 +67,12 @@ func genTree(r *rand.Rand, depth int, cnt *int, parent *drive.Cmd, name string, 
 			depth = 1
 		}
 		for k := 0; k < nk; k++ {
-			t.Kids = append(t.Kids, genTree(r, depth-1, cnt, t, fmt.Sprintf("c%d", *cnt), typed, version, deep))
+			kid := genTree(r, depth-1, cnt, t, fmt.Sprintf("c%d", *cnt), typed, version, deep)
+			if k == 0 && r.Intn(8) == 0 {
+				// a sub-command that goes by the name of its parent too ("app app", "c3 c3"): names are local to a level
+				kid.Aliases = append(kid.Aliases, t.Aliases[0])
+			}
+			t.Kids = append(t.Kids, kid)
 		}
 	}
 	return t
